@@ -14,7 +14,6 @@ import (
 	"testing"
 	"testing/synctest"
 	"time"
-	"unsafe"
 
 	"github.com/uhppoted/uhppote-core/types"
 	"github.com/uhppoted/uhppote-core/uhppote"
@@ -467,7 +466,7 @@ type lst struct {
 	n     int
 	kept  []*types.Status
 	first []map[string]string
-	word  uint64 // race detector: the callback hands the status over to whoever reads it later
+	mu    sync.Mutex // the application's own lock around what its callbacks publish (never held across a hook)
 }
 
 func (l *lst) hold() {
@@ -483,9 +482,11 @@ func (l *lst) OnConnected() {
 
 func (l *lst) OnEvent(s *types.Status) {
 	o := observeStatus(s)
+	// what a real application does: publish what the callback was given under a lock of its own
+	l.mu.Lock()
 	l.kept = append(l.kept, s)
 	l.first = append(l.first, o)
-	vnet.HandOver(unsafe.Pointer(&l.word))
+	l.mu.Unlock()
 	l.h.point("on-event", -1, map[string]any{"l": l.id, "obs": o})
 	if s != nil {
 		if p := render(s); p != "" {
@@ -535,11 +536,14 @@ func (h *harness) listen(ti, si int, st *Step) {
 		msg = err.Error()
 	}
 	h.point("listen-end", -1, msg)
-	vnet.TakeOver(unsafe.Pointer(&l.word))
 	h.sim.ScribbleStep(si, 0xa5)
-	for i, s := range l.kept {
-		if o := observeStatus(s); !reflect.DeepEqual(o, l.first[i]) {
-			h.point("status-changed", -1, map[string]any{"l": l.id, "n": i, "before": l.first[i], "after": o})
+	l.mu.Lock()
+	kept := append([]*types.Status{}, l.kept...)
+	first := append([]map[string]string{}, l.first...)
+	l.mu.Unlock()
+	for i, s := range kept {
+		if o := observeStatus(s); !reflect.DeepEqual(o, first[i]) {
+			h.point("status-changed", -1, map[string]any{"l": l.id, "n": i, "before": first[i], "after": o})
 		}
 	}
 }
